@@ -116,8 +116,14 @@ def r3_astm(ctx):
 
 
 def r5_lockstep(ctx):
-    _load(ctx)
-    SEM.r5_lockstep(ctx)
+    impl = _load(ctx)
+
+    def entails(key, i, e):
+        """does the invariant inferred for implementation `key` (C05-R4's analysis) at the source of its i-th transition entail e == 0?"""
+        an = _analysis(ctx, key, impl[key])
+        sts = an.at.get(i, []) if an is not None else []
+        return bool(sts) and all(st.entails_eq(e) for var, st, out in sts)
+    SEM.r5_lockstep(ctx, entails)
 
 
 def r6_value_flow(ctx):
@@ -143,13 +149,34 @@ def _returned(ret):
     return out
 
 
+def _analysis(ctx, key, a):
+    """the abstract interpretation of one implementation (shared by C05-R4 and C05-R5); None when it gave up (reported by C05-R4)"""
+    from .e8_karr import GraphAnalysis, V
+    cache = ctx.__dict__.setdefault("_c05an", {})
+    if key in cache:
+        return cache[key][0]
+    ts = a["raw"]
+    Ln = ts.ex.params[1]
+    arrays = {b: ts.allocs[b]["n"] for b in ("pts", "cycle_index") if b in ts.allocs}
+    arrays["peaks"] = V(Ln)          # C05-R7 checks that both entry points pass L = the length of the 1-D peaks array
+    outs = {b: (ts.allocs[b]["rows"], ts.allocs[b]["cols"]) for b in ("rf", "os") if b in ts.allocs}
+    edges = SEM.counter_edges(a)
+    parent = {"H1": None, "H2": "H1", "H3": None, Y.EPI: None}
+    try:
+        an = GraphAnalysis(ts.nodes, edges, Y.START, parent, arrays, outs, ts.int_vars(), {}, count_col={"rf": 2}, lower={Ln: 2}).run()
+        cache[key] = (an, edges, outs, None)
+    except Unsupported as e:
+        cache[key] = (None, edges, outs, str(e))
+    return cache[key][0]
+
+
 def r4_counter_balance(ctx):
     """for every input of length L >= 2: every access to the stacks and to the input is within the allocated length, the stores into the output
     tables fill whole rows consecutively from row 0 and stay below the allocated capacity, the table handed back holds exactly the rows
     written (stated with the program's own exit expression, whatever counter it keeps), both tables have the same number of rows, and the
     counts sum to (L-1)/2.  Abstract interpretation (Karr's affine equalities + lower bounds + template inequalities, invariants inferred per
     program) of the transition system of each implementation."""
-    from .e8_karr import GraphAnalysis, V
+    from .e8_karr import V
     impl = _load(ctx)
     for (side, nm), a in impl.items():
         ts = a["raw"]
@@ -162,15 +189,10 @@ def r4_counter_balance(ctx):
         if not need_ <= set(ts.allocs):
             ctx.error(f"{tag}: no allocation found for {sorted(need_ - set(ts.allocs))}", where)
             continue
-        arrays = {b: ts.allocs[b]["n"] for b in ("pts", "cycle_index") if b in ts.allocs}
-        arrays["peaks"] = L          # C05-R7 checks that both entry points pass L = the length of the 1-D peaks array
-        outs = {b: (ts.allocs[b]["rows"], ts.allocs[b]["cols"]) for b in ("rf", "os") if b in ts.allocs}
-        edges = SEM.counter_edges(a)
-        parent = {"H1": None, "H2": "H1", "H3": None, Y.EPI: None}
-        try:
-            an = GraphAnalysis(ts.nodes, edges, Y.START, parent, arrays, outs, ts.int_vars(), {}, count_col={"rf": 2}, lower={Ln: 2}).run()
-        except Unsupported as e:
-            ctx.error(f"{tag}: abstract interpretation gave up: {e}", where)
+        an = _analysis(ctx, (side, nm), a)
+        _, edges, outs, why = ctx._c05an[(side, nm)]
+        if an is None:
+            ctx.error(f"{tag}: abstract interpretation gave up: {why}", where)
             continue
         seen = set()
         for desc, ok, strepr in an.obl:
@@ -634,11 +656,11 @@ RULES = [
     ("C05-R1", r1_equivalence, 8),
     ("C05-R2", r2_erasure, 8),
     ("C05-R3", r3_astm, 16),
-    ("C05-R4", r4_counter_balance, 150),
+    ("C05-R4", r4_counter_balance, 200),
     ("C05-R5", r5_lockstep, 12),
-    ("C05-R6", r6_value_flow, 40),
-    ("C05-R7", r7_selection, 20),
-    ("C05-R8", r8_buffers, 20),
+    ("C05-R6", r6_value_flow, 150),
+    ("C05-R7", r7_selection, 30),
+    ("C05-R8", r8_buffers, 30),
     ("C05-R9", r9_wrapper_transparency, 16),
 ]
 LEVEL = "translation_validation"
